@@ -10,4 +10,5 @@ NetsA == {N_A}
 NetsB == {N_B}
 NetsAB == {N_A, N_B}
 QK == {"contract", "stats", "copy"}
+SmallSl == Len(sliced) <= 2
 ====
